@@ -3,6 +3,7 @@ import AasVerif.Lemmas.PyParen
 import AasVerif.Lemmas.PyParseSem
 import AasVerif.Lemmas.PyTrace
 import AasVerif.Lemmas.InferSimple
+import AasVerif.Lemmas.TraceSpec
 import AasVerif.Lemmas.PyRules
 import AasVerif.Lemmas.SdkVerify
 import AasVerif.Lemmas.SdkExact
@@ -255,9 +256,30 @@ theorem emit_invariant_order_preserves (cfg : Cfg) (e : Expr) (x : PyExpr)
   cases h
   simp only [PyExpr.trace, trace_parenUnless, trace_preserves cfg e [] y hfloat hy ρ]
 
+/-- **trace_pinpoints_raise.** What the trace means: when the source expression evaluates to a
+value, no operation of its trace raised; when it raises, the LAST operation of the trace raised
+exactly that exception and no operation before it raised (`TraceOK`).  (`wfBool`: no `and` / `or`
+without operands, which Python cannot write.) -/
+theorem trace_pinpoints_raise (e : Expr) (ρ : Env) (hw : wfBool e = true) :
+    TraceOK (Expr.trace ρ e) (Expr.eval ρ e) :=
+  trace_spec e ρ hw
+
+/-- **emit_raises_at_same_operation.** The emitted expression raises exactly when the source
+raises, the same exception, at the same operation: its trace is the trace of the source
+(`emit_order_preserves`), its outcome the outcome of the source (`emit_preserves`), and in that
+trace the operation that raised is the last one. -/
+theorem emit_raises_at_same_operation (cfg : Cfg) (vs : List Text) (e : Expr) (x : PyExpr)
+    (hfloat : noNan e = true) (hw : wfBool e = true) (h : transpile cfg vs e = .ok x) (ρ : Env) :
+    PyExpr.trace ρ x = Expr.trace ρ e ∧ PyExpr.eval ρ x = Expr.eval ρ e ∧
+      TraceOK (PyExpr.trace ρ x) (PyExpr.eval ρ x) := by
+  refine ⟨trace_preserves cfg e vs x hfloat h ρ, preserves cfg e vs x hfloat h ρ, ?_⟩
+  rw [trace_preserves cfg e vs x hfloat h ρ, preserves cfg e vs x hfloat h ρ]
+  exact trace_spec e ρ hw
+
 /-- The order statement is strictly stronger than `emit_preserves`: `a.x or b.x` and
 `b.x or a.x` have the same outcome where both `a` and `b` are `None` (`AttributeError`), but
-different traces; and where `a.x` is truthy the second operand is not touched. -/
+different traces (the operation that raises is the access on `a` resp. on `b`); and where `a.x`
+is truthy the second operand is not touched. -/
 theorem order_is_observable :
     let e1 : Expr := .or [.member (.name [97]) [120], .member (.name [98]) [120]]
     let e2 : Expr := .or [.member (.name [98]) [120], .member (.name [97]) [120]]
@@ -267,12 +289,12 @@ theorem order_is_observable :
     let ρ := env [([97], .none), ([98], .none)]
     let ρ' := env [([97], .inst 0 [67] [([120], .bool true)]), ([98], .none)]
     Expr.eval ρ e1 = Expr.eval ρ e2 ∧ Expr.trace ρ e1 ≠ Expr.trace ρ e2 ∧
-      Expr.trace ρ' e1 = [.load [97] (.val (.inst 0 [67] [([120], .bool true)])),
-        .getattr (.inst 0 [67] [([120], .bool true)]) [120]] := by
+      Expr.trace ρ' e1 = [⟨.load [97] (.val (.inst 0 [67] [([120], .bool true)])), none⟩,
+        ⟨.getattr (.inst 0 [67] [([120], .bool true)]) [120], none⟩] := by
   intro e1 e2 env ρ ρ'
   refine ⟨rfl, ?_, rfl⟩
-  have h1 : Expr.trace ρ e1 = [.load [97] (.val .none), .getattr .none [120]] := rfl
-  have h2 : Expr.trace ρ e2 = [.load [98] (.val .none), .getattr .none [120]] := rfl
+  have h1 : Expr.trace ρ e1 = [⟨.load [97] (.val .none), none⟩, ⟨.getattr .none [120], some .noneDeref⟩] := rfl
+  have h2 : Expr.trace ρ e2 = [⟨.load [98] (.val .none), none⟩, ⟨.getattr .none [120], some .noneDeref⟩] := rfl
   rw [h1, h2]
   simp
 
